@@ -30,6 +30,18 @@ Implementation functions driven (real code from $VERIF_REPO/src):
     any read or in the middle; every returned array overwritten by the caller; output dtype default /
     explicit; BINARY / FRACTIONAL reads with combine_segments / relabel / rescale_fractional /
     skip_overlap_checks; at the end the stored frames and the cached array must be unchanged
+  FLOATING POINT (probability) masks stored as FRACTIONAL with max_fractional_value 1 .. 255 (and refused above),
+    float32 / float64, passed as a whole matrix (tile_pixel_array=True) or as frames cut by the caller, every tile
+    of every segment empty / FAINT (only low levels, down to a single pixel at level 1) / confident, omit_empty_frames
+    given or left at its default; read back raw and rescaled (kind seg_frac)
+  described segment NUMBERS chosen by the caller: LABELMAP with sparse numbers whose highest lies at / next to the
+    8 / 16 bit storage boundaries (255, 256, 257, 32767, 32768, 65535 ...), BINARY / FRACTIONAL with 255 .. 257
+    segments; combined / relabelled / per-plane reads with the default and explicit output dtypes (kind seg_nums)
+  Segmentation(tile_pixel_array=False, plane_positions=[...]) with frames at CALLER-CHOSEN positions - arbitrary
+    offsets, shifted grids, sparse subsets of the grid, overlapping runs - observing the declared
+    TotalPixelMatrixRows/Columns and regions that start strictly inside an off-grid frame (kind seg_free);
+    Image.get_total_pixel_matrix / get_volume on images whose frames cover the matrix from explicit off-grid
+    positions (kind img_free)
 Model: coq/theories/C04_Model.v; theorems: C04_Props.v.
 Kind 'np1d' compares the MODEL with pure numpy slicing (no highdicom) on the
 exhaustive per-axis enumeration of start/end arguments.
@@ -52,6 +64,8 @@ ORACLE_PREMISES = [
     '(filter / length / duplicate test / insertion sort)',
     'numpy basic-slice assignment out[a:b, c:d] = frame[e:f, g:h] copies position-wise when shapes agree '
     '(shapes are proved equal: C04_slice_shapes_agree); np.zeros refuses negative shapes with ValueError',
+    'float quantisation: np.around(p * max_fractional_value) is the level q for p = (q + d) / max_fractional_value, '
+    '|d| <= 1/4, in float32 and float64 (the model works on levels; the oracle re-derives them with exact rationals)',
 ]
 MODELLED = ('image.py _standardize_row_column_indices, _iterate_indices_for_tiled_region (range predicate, '
             'four max/min slices, missing-frame count, uniqueness refusal, ORDER BY), the frame loop of '
@@ -72,10 +86,22 @@ MODELLED = ('image.py _standardize_row_column_indices, _iterate_indices_for_tile
             'LABELMAP output modes (planes, combined, relabelled) of Segmentation.get_total_pixel_matrix; '
             'combine_segments / relabel on BINARY and FRACTIONAL storage (np.maximum of label-scaled frames, overlap '
             'RuntimeError unless skip_overlap_checks, FRACTIONAL only with rescale_fractional: seg_read_combined); '
-            'a history of reads as a list of independent reads followed by "stored frames unchanged" (run_seg_hist)')
+            'a history of reads as a list of independent reads followed by "stored frames unchanged" (run_seg_hist); '
+            'float masks as LEVEL planes: range / max_fractional_value guards, emptiness of a tile and per-segment '
+            'omission decided on the quantised levels (stored_frac / run_seg_frac); frame-wise construction from frames at '
+            'caller-chosen positions: _get_nonempty_plane_indices, per-segment omission, the TotalPixelMatrixRows/Columns '
+            '_add_slide_coordinate_metadata derives from the frame that is last by (column, row) offset '
+            '(seg_store_frames / declared_free / run_seg_free); the described segment numbers are a parameter of every '
+            'seg term (any ascending list)')
 STRATA = ['std', 'std_bad', 'img', 'img_missing', 'img_dup', 'seg', 'seg_full_omit', 'np1d',
-          'seg_geom', 'seg_geom_bad', 'seg_pyr', 'img_vol', 'seg_reads', 'seg_mem', 'seg_frames', 'seg_hist', 'img_hist']
-NOT_EXECUTED = ['float (probability) inputs of FRACTIONAL segmentations (value encoding is property C01)',
+          'seg_geom', 'seg_geom_bad', 'seg_pyr', 'img_vol', 'seg_reads', 'seg_mem', 'seg_frames', 'seg_hist', 'img_hist',
+          'seg_frac', 'seg_nums', 'seg_free', 'img_free']
+NOT_EXECUTED = ['float probabilities whose product with max_fractional_value lies within 1/4 of a rounding tie '
+                '(value encoding is property C01)',
+                'combine_segments without skip_overlap_checks on BINARY / FRACTIONAL frames of ONE segment that overlap each '
+                'other (the code reports them as overlapping segments: RuntimeError; with skip_overlap_checks, and for '
+                'LABELMAP, overlapping frames are generated)',
+                'an explicit output dtype too small for the highest requested number (refused with ValueError; observed)',
                 'compressed transfer syntaxes (frame codecs are property C07)',
                 'multiple optical paths / focal planes (property C12 covers the implied order)',
                 'a repeated segment number in a combine_segments request on BINARY / FRACTIONAL storage (the code '
@@ -104,6 +130,18 @@ RULE = ('std: exhaustive small sizes x all argument values in [-n-2, n+3] U {Non
         'planes / combined / relabel for every type, rescale_fractional, skip_overlap_checks, dtype, entry point, '
         'the last read being the whole matrix in planes; img_hist: the img stream on an object from a dataset / '
         'imread / lazy imread with cache warming, overwritten results and default / explicit dtype; '
+        'seg_frac: per tile and segment empty / faint (levels 1 .. max/2, p=0.6 per pixel) / one pixel at level 1 / '
+        'confident, jitter d in {-1/4, 0, 1/4}, max_fractional_value from {1, 2, 3, 15, 100, 200, 254, 255}, 15 % masks '
+        'with 0.0 / 1.0 only, malformed stream (value > 1, value < 0, max_fractional_value 256 / 300), whole matrix '
+        '(70 %) or caller-cut frames, omit True / False / default, 5 reads planes raw / planes rescaled / combined / '
+        'relabel + the whole matrix; seg_nums: LABELMAP (86 %) with highest number from {254 .. 258, 300, 511 .. 513, '
+        '1000, 4000} (10 % from {32767, 32768, 65534, 65535}, 10 % uniform) and 0-3 lower numbers biased to 254 .. 257, '
+        'BINARY / FRACTIONAL with 255 / 256 / 257 segments; the highest number always present in the padded edge tile; '
+        '4 reads over all / highest / random subsets / undescribed numbers with dtype default or any sufficient one; '
+        'seg_free: frame size 1 .. 4, positions free / shifted grid / grid subset / overlapping run, 82 % with a frame '
+        'at the bottom-right corner of the bounding box, 60 % of the region starts strictly inside a frame; img_free: '
+        'per-axis origins 1 = o_0 < o_1 ... with steps <= tile size (no gaps; as many frames as the grid has, 20 % one '
+        'more), frames shuffled, 25 % through get_volume; '
         'non-trivial = more than one tile and a non-whole region, or a refusal; distinct by case hash')
 EXHAUSTIVE = {'quick': False, 'thorough': False}
 
@@ -116,6 +154,8 @@ SEG_TERM_KINDS = SEG_KINDS + ('seg_frames',)     # same model term: the library'
 # shape (R, C, 3)": "single frame" was recognised by `pixel_array.ndim == 2`, true for grayscale only).  The configuration
 # stays in the default img_hist stream (biased towards it) and in corpus/C04/d108_single_colour_frame_cached.json.
 # D100 (tiled get_volume with the one-based end 0), found by this check, was fixed in /repo as well.
+# OPEN (found by the kinds seg_free / seg_frac, reported; ids provisional - register them in KNOWN_FINDINGS.json under
+# these ids or rename the keys): see _sig_free_declared / _sig_empty_rescaled below (FINDINGS is filled in there).
 FINDINGS = {}
 
 
@@ -634,6 +674,312 @@ def _gen_img_hist(rng):
     return c
 
 
+
+# ---- described segment NUMBERS (sparse, at the 8 / 16 bit storage boundaries) ------------------
+_NUM_TOPS = [254, 255, 255, 256, 256, 256, 257, 258, 300, 511, 512, 513, 1000, 4000]
+_NUM_TOPS_HI = [32767, 32768, 65534, 65535]       # (reads of such objects take the library 0.1 s each)
+
+
+def _gen_seg_nums(rng):
+    """one construction with caller-chosen segment numbers + a history of reads: LABELMAP with sparse
+    numbers whose highest lies at / around a power of two, or BINARY / FRACTIONAL with 254..258 segments"""
+    R, C, th, tw = _sizes(rng, hi=6, thi=3)
+    k = rng.random()
+    if k < 0.86:
+        ty = 'LABELMAP'
+        top = rng.choice(_NUM_TOPS)
+        kk = rng.random()
+        if kk < 0.1:
+            top = rng.choice(_NUM_TOPS_HI)
+        elif kk < 0.2:
+            top = rng.randint(2, 2000)
+        lower = set()
+        for _ in range(rng.randint(0, 3)):
+            lower.add(rng.choice([1, 2, 7, 200, 254, 255, 256, 257, top - 1, rng.randint(1, top)]))
+        numbers = sorted(n for n in lower | {top} if 1 <= n <= top)
+    else:
+        ty = 'BINARY' if k < 0.97 else 'FRACTIONAL'
+        numbers = list(range(1, rng.choice([255, 256, 256, 257]) + 1))
+        R, C = min(R, 4), min(C, 4)
+    top = numbers[-1]
+    L = [[0] * C for _ in range(R)]
+    pool = [top, top, numbers[0]] + rng.sample(numbers, min(3, len(numbers)))
+    mode = rng.choice(['sparse', 'dense', 'corner'])
+    for r in range(R):
+        for cc in range(C):
+            if mode == 'dense' or (mode == 'sparse' and rng.random() < 0.3):
+                L[r][cc] = rng.choice(pool + [0])
+    L[R - 1][C - 1] = top                          # the highest number certainly occurs (padded edge tile)
+    if rng.random() < 0.5:
+        L[0][0] = top
+    full = rng.random() < 0.4
+    omit = (not full) and rng.random() < 0.8
+    few = len(numbers) <= 8
+    reads = []
+    for _ in range(4):
+        mode = rng.choice(['planes', 'combined', 'combined', 'relabel'])
+        kk = rng.random()
+        if kk < 0.35:
+            sel = list(numbers) if (few or mode != 'planes') else [1, top]
+        elif kk < 0.45:
+            sel = [top]
+        elif kk < 0.52:
+            sel = [rng.choice([0, top + 1, 65536 if top < 65535 else 0])] + [top]
+        else:
+            sel = rng.sample(numbers, rng.randint(1, min(4, len(numbers))))
+            if rng.random() < 0.6 and top not in sel:
+                sel.append(top)
+            rng.shuffle(sel)
+        hi = len(sel) if mode == 'relabel' else (max(sel) if mode == 'combined' else 1)
+        dts = [None, None, None, 'uint16', 'int32', 'int64', 'float64', 'uint32'] + (['uint8'] if hi <= 255 else []) \
+            + (['int16'] if hi <= 32767 else [])
+        opts = {'rescale': ty == 'FRACTIONAL' and mode != 'planes', 'skip': rng.random() < 0.3, 'dtype': rng.choice(dts)}
+        rg = _region(rng, R, C, th, tw, pbad=0.05)
+        if rng.random() < 0.35:
+            rg = [False, None, None, None, None]
+        reads.append([mode, rng.random() < 0.2, sel, rg, opts])
+    reads.append(['planes', False, list(numbers) if few else sorted({1, numbers[len(numbers) // 2], top}),
+                  [False, None, None, None, None], {'rescale': False, 'skip': False, 'dtype': None}])
+    hist = {'src': rng.choice(['mem', 'mem', 'file']), 'warm': rng.choice([None, None, 0, 2]),
+            'scribble': rng.random() < 0.3}
+    return {'kind': 'seg_nums', 'R': R, 'C': C, 'th': th, 'tw': tw, 'ty': ty, 'nseg': len(numbers),
+            'numbers': numbers, 'inp': 'label', 'L': L, 'stack': None, 'sel': [top], 'mem': None,
+            'full': full, 'omit': omit, 'src_tile': [rng.randint(1, 4), rng.randint(1, 4)],
+            'reads': reads, 'hist': hist}
+
+
+# ---- FLOATING POINT (probability) masks stored as FRACTIONAL ------------------------------------
+_MAXFRACS = [1, 2, 3, 15, 100, 200, 254, 255, 255, 255]
+
+
+def _gen_seg_frac(rng):
+    """probabilities p = (level + d / 4) / max_fractional_value, d in {-1, 0, 1}: quantise to `level`
+    far from any rounding tie.  Every tile of every segment is empty, FAINT (all levels <= half of
+    max_fractional_value, possibly only level 1) or confident; passed as a whole matrix or as frames
+    cut by the caller on the source grid."""
+    R, C, th, tw = _sizes(rng)
+    if rng.random() < 0.6:
+        th, tw = rng.randint(1, 3), rng.randint(1, 3)
+        R, C = min(9, th * rng.randint(2, 3) + rng.randint(0, th - 1)), min(9, tw * rng.randint(2, 3) + rng.randint(0, tw - 1))
+    nseg = rng.randint(1, 3)
+    mf = rng.choice(_MAXFRACS)
+    lev = [[[0] * C for _ in range(R)] for _ in range(nseg)]
+    jit = [[[0] * C for _ in range(R)] for _ in range(nseg)]
+    binary = rng.random() < 0.15                     # only 0.0 / 1.0: combined reads possible
+    for a in range(0, R, th):
+        for b in range(0, C, tw):
+            for s_ in range(nseg):
+                kind = rng.choice(['empty', 'empty', 'faint', 'faint', 'one', 'conf'])
+                cells = [(r, cc) for r in range(a, min(R, a + th)) for cc in range(b, min(C, b + tw))]
+                if binary:
+                    for (r, cc) in cells:
+                        lev[s_][r][cc] = mf if (kind != 'empty' and rng.random() < 0.5) else 0
+                    continue
+                if kind == 'faint':
+                    for (r, cc) in cells:
+                        if rng.random() < 0.6:
+                            lev[s_][r][cc] = rng.randint(1, max(1, mf // 2))
+                elif kind == 'one':                  # a single pixel at the lowest non-zero level
+                    r, cc = rng.choice(cells)
+                    lev[s_][r][cc] = 1
+                elif kind == 'conf':
+                    for (r, cc) in cells:
+                        lev[s_][r][cc] = rng.choice([0, mf, rng.randint(0, mf)])
+                for (r, cc) in cells:
+                    q = lev[s_][r][cc]
+                    jit[s_][r][cc] = rng.choice([0, 0, 1, -1]) if 0 < q < mf else (rng.choice([0, 1]) if q == 0 else rng.choice([0, -1]))
+    if rng.random() < 0.06:
+        lev = [[[0] * C for _ in range(R)] for _ in range(nseg)]       # wholly empty: omission is cancelled
+        jit = [[[max(0, v) for v in row] for row in pl] for pl in jit]  # (values that round to level 0 stay)
+    bad = None
+    k = rng.random()
+    if k < 0.04:
+        bad = 'gt1'
+    elif k < 0.08:
+        bad = 'neg'
+    elif k < 0.11:
+        bad, mf = 'mf', rng.choice([256, 300])
+        lev = [[[min(v, 255) for v in row] for row in pl] for pl in lev]
+        jit = [[[0] * C for _ in range(R)] for _ in range(nseg)]
+    entry = 'tile' if rng.random() < 0.7 else 'frames'
+    full = rng.random() < 0.35
+    omit = (False if full else rng.choice([True, True, None, None, False]))
+    if full and rng.random() < 0.15:
+        omit = True                                   # TILED_FULL + omission: refused unless empty
+    segs = list(range(1, nseg + 1))
+    reads = []
+    for _ in range(5):
+        kk = rng.random()
+        mode = 'planes' if kk < 0.7 else rng.choice(['combined', 'relabel'])
+        sel = list(segs) if rng.random() < 0.5 else rng.sample(segs, rng.randint(1, nseg))
+        if rng.random() < 0.06:
+            sel = sel + [nseg + 1]
+        opts = {'rescale': rng.random() < 0.5 if mode == 'planes' else rng.random() < 0.9,
+                'skip': True if nseg > 1 else rng.random() < 0.5, 'dtype': None}
+        rg = _region(rng, R, C, th, tw, pbad=0.05)
+        if rng.random() < 0.3:
+            rg = [False, None, None, None, None]
+        reads.append([mode, rng.random() < 0.2, sel, rg, opts])
+    reads.append(['planes', False, list(segs), [False, None, None, None, None],
+                  {'rescale': False, 'skip': True, 'dtype': None}])
+    return {'kind': 'seg_frac', 'R': R, 'C': C, 'th': th, 'tw': tw, 'nseg': nseg, 'mf': mf, 'lev': lev, 'jit': jit,
+            'fdt': rng.choice(['float32', 'float64']), 'bad': bad, 'entry': entry, 'full': full, 'omit': omit,
+            'inp3d': nseg == 1 and rng.random() < 0.5, 'src_tile': [rng.randint(1, 4), rng.randint(1, 4)],
+            'src_full': rng.random() < 0.5, 'src': rng.choice(['mem', 'mem', 'file']), 'reads': reads}
+
+
+# ---- frames at CALLER-CHOSEN positions (explicit positions off the tile grid) -------------------
+def _free_positions(rng, th, tw):
+    """distinct 1-based (row, column) frame origins: arbitrary, a shifted grid, a subset of the
+    regular grid, or a run of overlapping frames"""
+    mode = rng.choice(['free', 'free', 'shifted', 'subset', 'overlap'])
+    pos = set()
+    if mode == 'free':
+        for _ in range(rng.randint(1, 6)):
+            pos.add((rng.randint(1, 9), rng.randint(1, 9)))
+    elif mode == 'shifted':
+        dr, dc = rng.randint(0, th), rng.randint(0, tw)
+        if (dr % th, dc % tw) == (0, 0):
+            dr += 1
+        for a in range(rng.randint(1, 3)):
+            for b in range(rng.randint(1, 3)):
+                if rng.random() < 0.8:
+                    pos.add((1 + dr + a * th, 1 + dc + b * tw))
+        pos.add((1 + dr, 1 + dc))
+    elif mode == 'subset':
+        for a in range(3):
+            for b in range(3):
+                if rng.random() < 0.4:
+                    pos.add((1 + a * th, 1 + b * tw))
+        if not pos:
+            pos.add((1 + th, 1))
+    else:
+        r, cc = rng.randint(1, 3), rng.randint(1, 3)
+        for _ in range(rng.randint(2, 4)):
+            pos.add((r, cc))
+            r, cc = r + rng.randint(0, th), cc + rng.randint(0 if th > 1 else 1, tw)
+    pos = sorted(pos)
+    if rng.random() < 0.82:                        # a frame at the bottom-right corner of the bounding box
+        pos = sorted(set(pos) | {(max(p[0] for p in pos), max(p[1] for p in pos))})
+    rng.shuffle(pos)
+    return [list(p) for p in pos]
+
+
+def _free_axis(rng, n, origins, t, as_idx):
+    """(start, end) biased to starts strictly INSIDE a frame (origin + 1 .. origin + t - 1)"""
+    a, b = _axis_args(rng, n, t, as_idx)
+    if rng.random() < 0.6:
+        inside = sorted({p + k for p in origins for k in range(1, t)} & set(range(1, n + 1))) or [1]
+        s = rng.choice(inside)
+        e = rng.choice([n + 1, n + 1, min(n + 1, s + rng.randint(1, t + 1))])
+        a = s - 1 if as_idx else (s if rng.random() < 0.7 else s - n - 1)
+        b = None if (e == n + 1 and rng.random() < 0.5) else (e - 1 if as_idx else e)
+    return a, b
+
+
+def _free_region(rng, R, C, pos, th, tw):
+    ai = rng.random() < 0.4
+    rs, re = _free_axis(rng, R, [p[0] for p in pos], th, ai)
+    cs, ce = _free_axis(rng, C, [p[1] for p in pos], tw, ai)
+    if rng.random() < 0.08:
+        rs, re = _axis_args(rng, R, th, ai, bad=True)
+    return [ai, rs, re, cs, ce]
+
+
+def _footprints_overlap(pos, th, tw):
+    return any(abs(p[0] - q[0]) < th and abs(p[1] - q[1]) < tw for i, p in enumerate(pos) for q in pos[:i])
+
+
+def _gen_seg_free(rng):
+    th, tw = rng.choice([1, 2, 2, 3, 3, 4]), rng.choice([1, 2, 2, 3, 3, 4])
+    pos = _free_positions(rng, th, tw)
+    R, C = max(p[0] for p in pos) + th - 1, max(p[1] for p in pos) + tw - 1      # bounding box of the frames
+    ty = rng.choice(['BINARY', 'BINARY', 'LABELMAP', 'LABELMAP', 'FRACTIONAL'])
+    nseg = rng.randint(1, 3)
+    L = [[rng.randint(0, nseg) if rng.random() < 0.75 else 0 for _ in range(C)] for _ in range(R)]
+    if rng.random() < 0.3:                          # some frames entirely empty
+        r, cc = rng.choice(pos)
+        for a in range(r - 1, r - 1 + th):
+            for b in range(cc - 1, cc - 1 + tw):
+                L[a][b] = 0
+    segs = list(range(1, nseg + 1))
+    overlap = _footprints_overlap(pos, th, tw)
+    reads = []
+    for _ in range(6):
+        mode = rng.choice(['planes', 'combined', 'combined', 'relabel'])
+        sel = list(segs) if rng.random() < 0.5 else rng.sample(segs, rng.randint(1, nseg))
+        opts = {'rescale': rng.random() < 0.5, 'dtype': rng.choice([None, None, 'int64']),
+                # frames of ONE segment that overlap each other are reported as overlapping segments
+                'skip': True if (overlap and ty != 'LABELMAP') else rng.random() < 0.25}
+        if ty == 'FRACTIONAL':
+            opts['rescale'] = (mode != 'planes') and rng.random() < 0.9
+        rg = _free_region(rng, R, C, pos, th, tw)
+        reads.append([mode, rng.random() < 0.25, sel, rg, opts])
+    reads.append(['planes', False, list(segs), [False, None, None, None, None],
+                  {'rescale': False, 'skip': True, 'dtype': None}])
+    return {'kind': 'seg_free', 'R': R, 'C': C, 'th': th, 'tw': tw, 'pos': pos, 'ty': ty, 'nseg': nseg,
+            'mf': rng.choice([255, 255, 100, 1]) if ty == 'FRACTIONAL' else 255,
+            'inp': 'label' if (ty == 'LABELMAP' or rng.random() < 0.7) else 'stack', 'L': L,
+            'omit': rng.choice([True, True, None, False]), 'org_given': rng.random() < 0.5,
+            'src': [rng.randint(4, 12), rng.randint(4, 12), rng.randint(1, 5), rng.randint(1, 5)],
+            'obj': rng.choice(['mem', 'mem', 'file']), 'reads': reads}
+
+
+def _sig_free_declared(c):
+    """signature of the open finding 'frame-wise segmentation declares a total pixel matrix smaller
+    than the extent of its frames': the frame that is last by (column, row) offset is not the lowest"""
+    if c.get('kind') != 'seg_free':
+        return False
+    last = max(c['pos'], key=lambda p: (p[1], p[0]))
+    return last[0] != max(p[0] for p in c['pos'])
+
+
+def _sig_empty_rescaled(c):
+    """signature of the open finding 'an EMPTY region of a FRACTIONAL segmentation read as rescaled planes
+    (rescale_fractional=True, the default) raises ValueError instead of returning the empty array'"""
+    if c.get('kind') != 'seg_frac' or c['bad'] is not None or (c['full'] and c['omit']):
+        return False
+    for mode, _vv, sel, rg, o in c['reads']:
+        ref = ref_region(c['R'], c['C'], rg)
+        if (mode == 'planes' and o['rescale'] and ref is not None and (ref[0] == ref[1] or ref[2] == ref[3])
+                and sel and all(1 <= k <= c['nseg'] for k in sel)):
+            return True
+    return False
+
+
+FINDINGS.update({'D117': _sig_free_declared, 'D118': _sig_empty_rescaled})
+
+
+def _gen_img_free(rng):
+    """a slide image whose frames COVER the matrix from explicit positions off the regular grid
+    (overlapping neighbours; the last frame may reach beyond the matrix), stored in any order"""
+    R, C, th, tw = _sizes(rng)
+    th, tw = max(2, th), max(2, tw)
+    R, C = max(R, th + 1), max(C, tw + 1)
+
+    def origins(n, t):
+        cnt = -(-n // t)                            # as many frames as the regular grid has: whole reads pass
+        slack = cnt * t - n
+        if rng.random() < 0.2:
+            cnt, slack = cnt + 1, slack + t         # one more: the frame-count test of the reader differs
+        steps = [t] * (cnt - 1)
+        for _ in range(rng.randint(0, slack)):
+            i = rng.randrange(len(steps))
+            if steps[i] > 1:
+                steps[i] -= 1
+        o = [1]
+        for st in steps:
+            o.append(o[-1] + st)
+        return [x for x in o if x <= n]             # every frame starts inside the matrix
+    rows, cols = origins(R, th), origins(C, tw)
+    pos = [[r, cc] for r in rows for cc in cols]
+    rng.shuffle(pos)
+    regions = [[False, None, None, None, None]] + [_free_region(rng, R, C, pos, th, tw) for _ in range(6)]
+    return {'kind': 'img_free', 'R': R, 'C': C, 'th': th, 'tw': tw, 'full': False, 'samples': 1,
+            'arr': rng.random() < 0.5, 'px': _pixels(rng, R, C, 1), 'drop': [], 'dup': None, 'pos': pos,
+            'vol': rng.random() < 0.25, 'regions': regions}
+
+
 def _std_values(n):
     return [None] + list(range(-n - 2, n + 4))
 
@@ -780,6 +1126,21 @@ def gen_cases(rng, tier):
                 for ai in (False, True):
                     cases.append({'kind': 'np1d', 'n': n, 't': t, 'axis': axis, 'ai': ai,
                                   'm': rng.randint(1, 3), 'u': rng.randint(1, 2)})
+    # ---- (appended last: the streams of the kinds above stay what they were) --------------------
+    # float probability masks / max_fractional_value; described segment numbers at the storage
+    # boundaries; frames and image tiles at explicit positions off the regular grid
+    for _ in range(60 * nrand):
+        cases.append(_gen_seg_frac(rng))
+    for _ in range(36 * nrand):
+        cases.append(_gen_seg_nums(rng))
+    for _ in range(60 * nrand):
+        cases.append(_gen_seg_free(rng))
+    for _ in range(40 * nrand):
+        cases.append(_gen_img_free(rng))
+    if os.environ.get('VERIF_C04_SKIP_OPEN'):
+        # testing aid, OFF by default: leave out the cases that hit the two reported, still open defects of /repo
+        # (FINDINGS) so that everything else can be validated before they are fixed / registered
+        cases = [c for c in cases if not any(sig(c) for sig in FINDINGS.values())]
     return cases
 
 
@@ -834,10 +1195,16 @@ def _np1d_matrix(c):
     return R, C, th, tw, M
 
 
+def _numbers(m):
+    """the described segment numbers: 1..nseg unless the case names them (kind seg_nums)"""
+    return list(m.get('numbers') or range(1, m['nseg'] + 1))
+
+
 def _mask_array(m, R, C):
     import numpy as np
     if m['inp'] == 'label':
-        a = np.array(m['L'], np.uint8).reshape(1, R, C)
+        big = max(max(r) for r in m['L']) > 255
+        a = np.array(m['L'], np.uint16 if big else np.uint8).reshape(1, R, C)
     else:
         a = np.stack([np.array(p, np.uint8).reshape(R, C) for p in m['stack']], axis=-1)[None]
     return _relayout(a, m.get('mem'))
@@ -1031,7 +1398,7 @@ def _run_seg_hist(c):
     before = arr.copy()
 
     def build():
-        return synth.make_seg([src], arr, c['ty'], list(range(1, c['nseg'] + 1)),
+        return synth.make_seg([src], arr, c['ty'], _numbers(c),
                               tile_pixel_array=True, tile_size=(c['th'], c['tw']),
                               dimension_organization_type='TILED_FULL' if c['full'] else 'TILED_SPARSE',
                               omit_empty_frames=c['omit'])
@@ -1120,12 +1487,169 @@ def _run_img_hist(c):
     return outs
 
 
+def _frac_array(c):
+    """the float array passed: (1, R, C, S) or (1, R, C); values (level + d / 4) / max_fractional_value"""
+    import numpy as np
+    lev = np.array(c['lev'], np.float64)
+    jit = np.array(c['jit'], np.float64)
+    a = (lev + 0.25 * jit) / float(min(c['mf'], 255))
+    if c['bad'] == 'gt1':
+        a[0, -1, -1] = 1.0 + 1.0 / 64
+    elif c['bad'] == 'neg':
+        a[-1, 0, 0] = -1.0 / 64
+    a = a.astype(c['fdt'])
+    a = np.moveaxis(a, 0, -1)[None]                # 1 x R x C x S
+    if c['inp3d']:
+        a = a[..., 0]
+    return np.ascontiguousarray(a)
+
+
+def _levels_of(a, mf):
+    """levels a rescaled read denotes (value * MaximumFractionalValue must be integral)"""
+    import numpy as np
+    b = a.astype(np.float64) * mf
+    r = np.rint(b)
+    return r.astype(np.int64) if np.all(np.abs(b - r) < 1e-3) else b
+
+
+def _do_reads(seg, c, ty, mf):
+    """the reads of a case with read options; rescaled FRACTIONAL planes are shown as levels"""
+    import numpy as np
+    outs = []
+    for mode, via_volume, sel, rg, opts in c['reads']:
+        def f():
+            kw = dict(segment_numbers=list(sel), combine_segments=mode != 'planes', relabel=mode == 'relabel',
+                      rescale_fractional=opts['rescale'], skip_overlap_checks=opts['skip'], **_kw(rg))
+            if opts['dtype'] is not None:
+                kw['dtype'] = np.dtype(opts['dtype'])
+            if via_volume:
+                a = seg.get_volume(**kw).array
+                assert a.shape[0] == 1
+                a = a[0]
+            else:
+                a = seg.get_total_pixel_matrix(**kw)
+            if opts['dtype'] is not None:
+                assert a.dtype == np.dtype(opts['dtype']), (a.dtype, opts['dtype'])
+            if ty == 'FRACTIONAL' and mode == 'planes' and opts['rescale']:
+                assert a.dtype.kind == 'f', a.dtype
+                b = _levels_of(a, mf)
+            else:
+                b = _as_ints(a)
+            return b.tolist() if mode != 'planes' else b.transpose(2, 0, 1).tolist()
+        outs.append(catch(f))
+    return outs
+
+
+def _run_seg_frac(c):
+    import numpy as np
+    import highdicom as hd
+    import synth
+    R, C, th, tw = c['R'], c['C'], c['th'], c['tw']
+    arr = _frac_array(c)
+    before = arr.copy()
+    kw = {'max_fractional_value': c['mf']}
+    if c['omit'] is not None:
+        kw['omit_empty_frames'] = c['omit']
+    segs = list(range(1, c['nseg'] + 1))
+    if c['entry'] == 'tile':
+        src = synth.sm_tiled(R, C, c['src_tile'][0], c['src_tile'][1])
+        kw.update(tile_pixel_array=True, tile_size=(th, tw),
+                  dimension_organization_type='TILED_FULL' if c['full'] else 'TILED_SPARSE')
+    else:
+        src = synth.sm_tiled(R, C, th, tw, tiled_full=c['src_full'])
+        nr, nc = -(-R // th), -(-C // tw)
+        pad = np.zeros((nr * th, nc * tw) + arr.shape[3:], arr.dtype)
+        pad[:R, :C] = arr[0]
+        arr = np.stack([pad[a * th:(a + 1) * th, b * tw:(b + 1) * tw] for a in range(nr) for b in range(nc)])
+        before = arr.copy()
+        if c['full']:
+            kw['dimension_organization_type'] = 'TILED_FULL'
+    seg = catch(lambda: synth.make_seg([src], arr, 'FRACTIONAL', segs, **kw))
+    if isinstance(seg, Err):
+        return seg
+    assert np.array_equal(arr, before)
+    if c['src'] == 'file':
+        seg = synth.write_read(seg, hd.seg.segread)
+    return [int(seg.NumberOfFrames)] + _do_reads(seg, c, 'FRACTIONAL', c['mf'])
+
+
+def _free_frames(c):
+    """frames cut from the R x C matrix L at the positions of the case: (n, th, tw) labels or
+    (n, th, tw, S) binary planes"""
+    import numpy as np
+    L = np.array(c['L'], np.uint8).reshape(c['R'], c['C'])
+    fr = np.stack([L[r - 1:r - 1 + c['th'], cc - 1:cc - 1 + c['tw']] for r, cc in c['pos']])
+    if c['inp'] == 'stack':
+        fr = np.stack([(fr == k).astype(np.uint8) for k in range(1, c['nseg'] + 1)], axis=-1)
+    return fr
+
+
+def _run_seg_free(c):
+    import numpy as np
+    import highdicom as hd
+    import synth
+    SR, SC, sth, stw = c['src']
+    src = synth.sm_tiled(SR, SC, sth, stw)
+    arr = _free_frames(c)
+    before = arr.copy()
+    pps = [hd.PlanePositionSequence('SLIDE', image_position=(100.0 + 0.5 * cc, 200.0 + 0.5 * r, 0.0),
+                                    pixel_matrix_position=(cc, r)) for r, cc in c['pos']]
+    kw = {'plane_positions': pps}
+    if c['omit'] is not None:
+        kw['omit_empty_frames'] = c['omit']
+    if c['org_given']:
+        kw['dimension_organization_type'] = 'TILED_SPARSE'
+    if c['ty'] == 'FRACTIONAL':
+        kw['max_fractional_value'] = c['mf']
+    seg = catch(lambda: synth.make_seg([src], arr, c['ty'], list(range(1, c['nseg'] + 1)), **kw))
+    if isinstance(seg, Err):
+        return seg
+    assert np.array_equal(arr, before)
+    if c['obj'] == 'file':
+        seg = synth.write_read(seg, hd.seg.segread)
+    return [int(seg.NumberOfFrames), int(seg.TotalPixelMatrixRows), int(seg.TotalPixelMatrixColumns)] \
+        + _do_reads(seg, c, c['ty'], c['mf'])
+
+
+def _img_free_dataset(c):
+    """TILED_SPARSE slide image whose frames sit at the explicit positions of the case"""
+    import copy
+    import numpy as np
+    import synth
+    R, C, th, tw = c['R'], c['C'], c['th'], c['tw']
+    ds = synth.sm_tiled(R, C, th, tw, tiled_full=False, samples=1)
+    px = np.array(c['px'], np.uint8).reshape(R, C)
+    pad = np.zeros((R + th, C + tw), np.uint8)
+    pad[:R, :C] = px
+    it0 = ds.PerFrameFunctionalGroupsSequence[0]
+    items, frames = [], []
+    for r, cc in c['pos']:
+        it = copy.deepcopy(it0)
+        pp = it.PlanePositionSlideSequence[0]
+        pp.RowPositionInTotalImagePixelMatrix = r
+        pp.ColumnPositionInTotalImagePixelMatrix = cc
+        pp.XOffsetInSlideCoordinateSystem = 0.5 * cc
+        pp.YOffsetInSlideCoordinateSystem = 0.5 * r
+        it.FrameContentSequence[0].DimensionIndexValues = [cc, r]
+        items.append(it)
+        frames.append(pad[r - 1:r - 1 + th, cc - 1:cc - 1 + tw].tobytes())
+    ds.PerFrameFunctionalGroupsSequence = items
+    ds.NumberOfFrames = len(items)
+    pd = b''.join(frames)
+    ds.PixelData = pd + (b'\0' if len(pd) % 2 else b'')
+    return ds
+
+
 def run_impl(c):
     import numpy as np
     _quiet()
     k = c['kind']
-    if k == 'seg_hist':
+    if k in ('seg_hist', 'seg_nums'):
         return _run_seg_hist(c)
+    if k == 'seg_frac':
+        return _run_seg_frac(c)
+    if k == 'seg_free':
+        return _run_seg_free(c)
     if k == 'img_hist':
         return _run_img_hist(c)
     if k == 'seg_frames':
@@ -1135,13 +1659,18 @@ def run_impl(c):
         ai, rs, re, cs, ce = c['rg']
         return catch(lambda: [int(x) for x in _Image._standardize_row_column_indices(
             rs, re, cs, ce, rows=c['R'], columns=c['C'], as_indices=ai, outputs_as_indices=c['oi'])])
-    if k in ('img', 'img_missing', 'img_dup'):
+    if k in ('img', 'img_missing', 'img_dup', 'img_free'):
         import highdicom as hd
-        im = hd.Image.from_dataset(_img_dataset(c), copy=False)
+        im = hd.Image.from_dataset(_img_free_dataset(c) if k == 'img_free' else _img_dataset(c), copy=False)
         outs = []
         for rg in c['regions']:
             def f():
-                a = im.get_total_pixel_matrix(dtype=np.int64, apply_icc_profile=False, **_kw(rg))
+                if c.get('vol'):
+                    a = im.get_volume(dtype=np.int64, apply_icc_profile=False, **_kw(rg)).array
+                    assert a.shape[0] == 1
+                    a = a[0]
+                else:
+                    a = im.get_total_pixel_matrix(dtype=np.int64, apply_icc_profile=False, **_kw(rg))
                 if a.ndim == 2:
                     a = a[:, :, None]
                 return a.transpose(2, 0, 1).tolist()
@@ -1256,12 +1785,21 @@ def _img_tiles(c):
 
 def _planes_term(m):
     """(planes, segs_model) of a mask description"""
-    segs = list(range(1, m['nseg'] + 1))
+    segs = _numbers(m)
     if m['ty'] == 'LABELMAP':
         return f"[(0, {zll(m['L'])})]", [0]
     if m['inp'] == 'label':
         return f"(planes_of_labelmap {zll(m['L'])} {zl(segs)})", segs
     return '[' + '; '.join(f'({i + 1}, {zll(p)})' for i, p in enumerate(m['stack'])) + ']', segs
+
+
+def _opt_reads_term(reads):
+    """list of Coq `opt_read`s: (mode, via get_volume, (rescale_fractional, skip_overlap_checks), numbers, region)"""
+    md = {'planes': 'Planes', 'combined': 'Combined', 'relabel': 'Relabelled'}
+    return '[' + '; '.join(
+        f"({md[mode]}, {_b(vv)}, ({_b(o['rescale'])}, {_b(o['skip'])}), {zl(sel)}, "
+        f"({_b(rg[0])}, ({optz(rg[1])}, {optz(rg[2])}, {optz(rg[3])}, {optz(rg[4])})))"
+        for mode, vv, sel, rg, o in reads) + ']'
 
 
 def _rgs_term(regions):
@@ -1286,6 +1824,39 @@ def coq_term(c):
         ai, rs, re, cs, ce = c['rg']
         return (f"(run_std {_b(ai)} {_b(c['oi'])} {optz(rs)} {optz(re)} {optz(cs)} {optz(ce)} "
                 f"{zlit(c['R'])} {zlit(c['C'])})")
+    if k == 'seg_frac':
+        lev = [[list(row) for row in pl] for pl in c['lev']]
+        if c['bad'] == 'gt1':
+            lev[0][-1][-1] = c['mf'] + 1              # a probability above 1
+        elif c['bad'] == 'neg':
+            lev[-1][0][0] = -1                        # a negative probability
+        segs = list(range(1, c['nseg'] + 1))
+        planes = '[' + '; '.join(f'({i + 1}, {zll(pl)})' for i, pl in enumerate(lev)) + ']'
+        omit = True if c['omit'] is None else c['omit']
+        return (f"(run_seg_frac {c['mf']} {_b(c['full'])} {_b(omit)} {planes} {zl(segs)} {zl(segs)} "
+                f"{c['R']} {c['C']} {c['th']} {c['tw']} {_opt_reads_term(c['reads'])})")
+    if k == 'seg_free':
+        ty = {'BINARY': 'Binary', 'FRACTIONAL': 'Fractional', 'LABELMAP': 'Labelmap'}[c['ty']]
+        segs = list(range(1, c['nseg'] + 1))
+        frames = []
+        for r, cc in c['pos']:
+            T = [[c['L'][a][b] for b in range(cc - 1, cc - 1 + c['tw'])] for a in range(r - 1, r - 1 + c['th'])]
+            if c['ty'] == 'LABELMAP':
+                pls = f'[(0, {zll(T)})]'
+            else:
+                pls = '[' + '; '.join(f'({k2}, {zll([[1 if v == k2 else 0 for v in row] for row in T])})'
+                                      for k2 in segs) + ']'
+            frames.append(f'mkF {r} {cc} {pls}')
+        omit = True if c['omit'] is None else c['omit']
+        return (f"(run_seg_free {ty} {c['mf']} {_b(omit)} [{'; '.join(frames)}] {zl(segs)} "
+                f"{c['th']} {c['tw']} {_opt_reads_term(c['reads'])})")
+    if k == 'img_free':
+        R, C, th, tw = c['R'], c['C'], c['th'], c['tw']
+        M = [[c['px'][r][cc][0] for cc in range(C)] for r in range(R)]
+        P = '[[' + '; '.join(f'mkT {r} {cc} {zll(_cut_py(M, R, C, th, tw, r - 1, cc - 1))}' for r, cc in c['pos']) + ']]'
+        sfx = '_vol' if c.get('vol') else ('_arr' if c.get('arr') else '')
+        calls = [f'run_img{sfx} false {R} {C} {th} {tw} P {_rg_args(rg)}' for rg in c['regions']]
+        return f"(let P := {P} in VL [{'; '.join(calls)}])"
     if k in ('img', 'img_missing', 'img_dup', 'img_vol', 'img_hist'):
         planes = _img_tiles(c)
         dims = f"{c['R']} {c['C']} {c['th']} {c['tw']}"
@@ -1309,16 +1880,11 @@ def coq_term(c):
             for mode, vv, sel, rg in c['reads']) + ']'
         return (f"(run_seg_reads {ty} 255 {_b(c['full'])} {_b(c['omit'])} {planes} {zl(segs_model)} "
                 f"{zl(list(range(1, c['nseg'] + 1)))} {c['R']} {c['C']} {c['th']} {c['tw']} {reads})")
-    if k == 'seg_hist':
+    if k in ('seg_hist', 'seg_nums'):
         ty = {'BINARY': 'Binary', 'FRACTIONAL': 'Fractional', 'LABELMAP': 'Labelmap'}[c['ty']]
         planes, segs_model = _planes_term(c)
-        md = {'planes': 'Planes', 'combined': 'Combined', 'relabel': 'Relabelled'}
-        reads = '[' + '; '.join(
-            f"({md[mode]}, {_b(vv)}, ({_b(o['rescale'])}, {_b(o['skip'])}), {zl(sel)}, "
-            f"({_b(rg[0])}, ({optz(rg[1])}, {optz(rg[2])}, {optz(rg[3])}, {optz(rg[4])})))"
-            for mode, vv, sel, rg, o in c['reads']) + ']'
         return (f"(run_seg_hist {ty} 255 {_b(c['full'])} {_b(c['omit'])} {planes} {zl(segs_model)} "
-                f"{zl(list(range(1, c['nseg'] + 1)))} {c['R']} {c['C']} {c['th']} {c['tw']} {reads})")
+                f"{zl(_numbers(c))} {c['R']} {c['C']} {c['th']} {c['tw']} {_opt_reads_term(c['reads'])})")
     if k in SEG_TERM_KINDS:
         ty = {'BINARY': 'Binary', 'FRACTIONAL': 'Fractional', 'LABELMAP': 'Labelmap'}[c['ty']]
         segs = list(range(1, c['nseg'] + 1))
@@ -1394,7 +1960,7 @@ def _seg_oracle(c, R, C, th, tw, regions, out, geom):
     L = np.array(c['L'], np.int64).reshape(R, C)
     nseg = c['nseg']
     if c['inp'] == 'label':
-        masks = {s: (L == s).astype(np.int64) for s in range(1, nseg + 1)}
+        masks = {s: (L == s).astype(np.int64) for s in _numbers(c)}
     else:
         masks = {s + 1: np.array(p, np.int64).reshape(R, C) for s, p in enumerate(c['stack'])}
     anym = np.zeros((R, C), bool)
@@ -1494,9 +2060,9 @@ def _seg_hist_oracle(c, out):
     if head is not None or isinstance(out, Err):
         return head
     L = np.array(c['L'], np.int64).reshape(R, C)
-    nseg = c['nseg']
+    nseg = max(_numbers(c))
     if c['inp'] == 'label':
-        masks = {s: (L == s).astype(np.int64) for s in range(1, nseg + 1)}
+        masks = {s: (L == s).astype(np.int64) for s in _numbers(c)}
     else:
         masks = {s + 1: np.array(p, np.int64).reshape(R, C) for s, p in enumerate(c['stack'])}
     scale = 255 if c['ty'] == 'FRACTIONAL' else 1
@@ -1545,11 +2111,136 @@ def _seg_hist_oracle(c, out):
     return None
 
 
+def _read_oracle(what, mode, sel, o, got, ref, planes, ty, mf, lab=None):
+    """one read with options against numpy.  planes: {segment number: R x C array of STORED values
+    (0/1, or levels for FRACTIONAL) the matrix must show}; lab: R x C label matrix for LABELMAP."""
+    import numpy as np
+    bad_sel = len(sel) == 0 or any(s not in planes for s in sel)
+    frac_raw = ty == 'FRACTIONAL' and mode != 'planes' and not o['rescale']
+    if bad_sel or ref is None or frac_raw:
+        if not isinstance(got, Err):
+            why = ('segment_numbers empty or not described' if bad_sel else
+                   'arguments denote no region' if ref is None else
+                   'FRACTIONAL segments combined without rescale_fractional')
+            return f'{what}: {why}, yet returned {str(got)[:100]}'
+        return None
+    r0, r1, c0, c1 = ref
+    if mode == 'planes':
+        want = [planes[s][r0:r1, c0:c1].tolist() for s in sel]
+    elif ty == 'LABELMAP':
+        if mode == 'combined':
+            want = np.where(np.isin(lab, sel), lab, 0)[r0:r1, c0:c1].tolist()
+        else:
+            want = np.vectorize(lambda v: sel.index(v) + 1 if v in sel else 0, otypes=[np.int64])(
+                lab[r0:r1, c0:c1]).reshape(r1 - r0, c1 - c0).tolist()
+    else:
+        window = np.stack([planes[s][r0:r1, c0:c1] for s in sel])
+        if ty == 'FRACTIONAL':
+            if not np.isin(window, [0, mf]).all():
+                if not (isinstance(got, Err) and got.kind == 'ValueError'):
+                    return (f'{what}: combining FRACTIONAL planes that hold levels other than 0 / {mf} inside the '
+                            f'region must be refused with ValueError, got {str(got)[:100]}')
+                return None
+            window = window // mf
+        if (window > 0).sum(axis=0).max(initial=0) > 1 and not o['skip']:
+            if not (isinstance(got, Err) and got.kind == 'RuntimeError'):
+                return f'{what}: two requested segments overlap inside the region, got {str(got)[:100]}'
+            return None
+        labels = np.array([sel.index(s) + 1 if mode == 'relabel' else s for s in sel], np.int64)
+        want = (window * labels[:, None, None]).max(axis=0, initial=0).tolist()
+    if isinstance(got, Err):
+        return f'{what}: valid read refused: {got}'
+    if got != want:
+        return f'{what}: got {str(got)[:200]} expected {str(want)[:200]}'
+    return None
+
+
+def _seg_frac_oracle(c, out):
+    """the float mask that was passed, quantised with exact rational arithmetic (round half to even),
+    is what every read must show; a tile is stored iff one of its levels is non-zero"""
+    import numpy as np
+    from fractions import Fraction
+    R, C, th, tw, mf, nseg = c['R'], c['C'], c['th'], c['tw'], c['mf'], c['nseg']
+    arr = _frac_array(c)
+    vals = arr.reshape(R, C, nseg)
+    if c['bad'] is not None or vals.min() < 0 or vals.max() > 1:
+        return None if (isinstance(out, Err) and out.kind == 'ValueError') else \
+            f"{ {'gt1': 'a value above 1.0', 'neg': 'a negative value', 'mf': f'max_fractional_value {mf}'}[c['bad']] }" \
+            f" must be refused with ValueError, got {str(out)[:80]}"
+    q = np.zeros((R, C, nseg), np.int64)
+    for idx in np.ndindex(R, C, nseg):
+        x = Fraction(float(vals[idx])) * mf
+        fl = x.numerator // x.denominator
+        d = x - fl
+        q[idx] = fl + (1 if (d > Fraction(1, 2) or (d == Fraction(1, 2) and fl % 2 == 1)) else 0)
+    planes = {k + 1: q[:, :, k] for k in range(nseg)}
+    anyq = q.any(axis=2)
+    omit = (True if c['omit'] is None else c['omit']) and bool(anyq.any())
+    if c['full'] and omit:
+        return None if (isinstance(out, Err) and out.kind == 'ValueError') else \
+            f'TILED_FULL with omit_empty_frames and a non-empty mask must be refused, got {str(out)[:80]}'
+    if isinstance(out, Err):
+        return f'valid construction refused: {out}'
+    tiles = [(a, b) for a in range(0, R, th) for b in range(0, C, tw)]
+    want_n = sum(1 for k in planes for a, b in tiles if (not omit) or planes[k][a:a + th, b:b + tw].any())
+    if out[0] != want_n:
+        lost = [(k, a + 1, b + 1) for k in planes for a, b in tiles
+                if planes[k][a:a + th, b:b + tw].any() and planes[k][a:a + th, b:b + tw].max() * 2 <= mf]
+        return (f'{out[0]} frames stored, expected {want_n}: every tile of a segment holding a non-zero LEVEL '
+                f'(after quantisation with max_fractional_value={mf}) must be stored; faint tiles '
+                f'(segment, row, column): {lost[:6]}')
+    for n, ((mode, via_volume, sel, rg, o), got) in enumerate(zip(c['reads'], out[1:])):
+        what = (f"read #{n} {'get_volume' if via_volume else 'get_total_pixel_matrix'}(segment_numbers={sel}, {mode}, "
+                f"{rg}, {o}) [float mask {c['fdt']}, max_fractional_value={mf}, {c['entry']}, object: {c['src']}]")
+        msg = _read_oracle(what, mode, sel, o, got, ref_region(R, C, rg), planes, 'FRACTIONAL', mf)
+        if msg is not None:
+            return msg
+    return None
+
+
+def _seg_free_oracle(c, out):
+    """frames cut from ONE matrix at the caller's positions: the object must declare the bounding
+    box of its frames and every region must show the matrix where a stored frame holds the cell"""
+    import numpy as np
+    R, C, th, tw, nseg, ty = c['R'], c['C'], c['th'], c['tw'], c['nseg'], c['ty']
+    if isinstance(out, Err):
+        return f'valid construction refused: {out}'
+    L = np.array(c['L'], np.int64).reshape(R, C)
+    held = np.zeros((R, C), bool)
+    for r, cc in c['pos']:
+        held[r - 1:r - 1 + th, cc - 1:cc - 1 + tw] = True
+    Lh = np.where(held, L, 0)
+    scale = c['mf'] if ty == 'FRACTIONAL' else 1
+    planes = {k: (Lh == k).astype(np.int64) * scale for k in range(1, nseg + 1)}
+    frames = [L[r - 1:r - 1 + th, cc - 1:cc - 1 + tw] for r, cc in c['pos']]
+    omit = (True if c['omit'] is None else c['omit']) and any(f.any() for f in frames)
+    if ty == 'LABELMAP':
+        want_n = sum(1 for f in frames if (not omit) or f.any())
+    else:
+        want_n = sum(1 for k in planes for f in frames if (not omit) or (f == k).any())
+    if list(out[1:3]) != [R, C]:
+        return (f'declares TotalPixelMatrixRows/Columns {out[1]}x{out[2]}, but its {th}x{tw} frames at (row, column) '
+                f"{sorted(map(tuple, c['pos']))} reach row {R} and column {C}")
+    if out[0] != want_n:
+        return f'{out[0]} frames stored, expected {want_n}'
+    for n, ((mode, via_volume, sel, rg, o), got) in enumerate(zip(c['reads'], out[3:])):
+        what = (f"read #{n} {'get_volume' if via_volume else 'get_total_pixel_matrix'}(segment_numbers={sel}, {mode}, "
+                f"{rg}, {o}) [{ty} frames {th}x{tw} at {sorted(map(tuple, c['pos']))}, object: {c['obj']}]")
+        msg = _read_oracle(what, mode, sel, o, got, ref_region(R, C, rg), planes, ty, c['mf'], lab=Lh)
+        if msg is not None:
+            return msg
+    return None
+
+
 def oracle(c, out):
     import numpy as np
     k = c['kind']
-    if k == 'seg_hist':
+    if k in ('seg_hist', 'seg_nums'):
         return _seg_hist_oracle(c, out)
+    if k == 'seg_frac':
+        return _seg_frac_oracle(c, out)
+    if k == 'seg_free':
+        return _seg_free_oracle(c, out)
     if k == 'img_hist':
         if out[-1] is not True:
             return 'after the reads the image differs from what it was (PixelData bytes / cached pixel_array changed)'
@@ -1576,6 +2267,24 @@ def oracle(c, out):
         return None if list(out) == want else f'standardised to {out}, conventions denote {want}'
     if k == 'seg_reads':
         return _seg_reads_oracle(c, out)
+    if k == 'img_free':
+        # the frames cover the matrix: a valid region is its slice of the matrix - or the reader's
+        # "frames are missing" refusal (its frame count assumes the regular grid; which of the two is
+        # pinned by the model); never other values, never another error
+        R, C = c['R'], c['C']
+        px = np.array(c['px'], np.int64).reshape(R, C)
+        for rg, o in zip(c['regions'], out):
+            ref = ref_region(R, C, rg)
+            if ref is None:
+                if not isinstance(o, Err):
+                    return f'region {rg} outside the conventions accepted: {str(o)[:120]}'
+            elif isinstance(o, Err):
+                if o.kind != 'RuntimeError':
+                    return f'valid region {rg} refused with {o}'
+            elif o != [px[ref[0]:ref[1], ref[2]:ref[3]].tolist()]:
+                return (f"region {rg} of frames at {sorted(map(tuple, c['pos']))}: got {str(o)[:200]} expected TPM slice "
+                        f'{str([px[ref[0]:ref[1], ref[2]:ref[3]].tolist()])[:200]}')
+        return None
     if k in ('img', 'img_missing', 'img_dup', 'img_vol'):
         R, C, th, tw = c['R'], c['C'], c['th'], c['tw']
         px = np.array(c['px'], np.int64).reshape(R, C, c['samples'])
@@ -1675,8 +2384,10 @@ def nontrivial(c, out):
         return nt > 1 and any(r[1:] != [None, None, None, None] for r in c['regions'])
     if k == 'seg_pyr':
         return len(c['shapes']) > 1
-    if k in ('seg_reads', 'seg_hist', 'img_hist'):
+    if k in ('seg_reads', 'seg_hist', 'img_hist', 'seg_nums', 'seg_frac', 'seg_free'):
         return True
+    if k == 'img_free':
+        return any(r[1:] != [None, None, None, None] for r in c['regions'])
     if k == 'np1d':
         return c['n'] > c['t']
     nt = (-(-c['R'] // c['th'])) * (-(-c['C'] // c['tw']))
@@ -1692,7 +2403,32 @@ def shrink(c):
             for i in range(len(c['reads'])):
                 yield dict(c, reads=[c['reads'][i]])
         return
-    if k == 'seg_hist':
+    if k in ('seg_frac', 'seg_free'):
+        if len(c['reads']) > 1:
+            for i in range(len(c['reads'])):
+                yield dict(c, reads=c['reads'][:i] + c['reads'][i + 1:])
+        for key in ('src', 'obj'):
+            if c.get(key) == 'file':
+                yield dict(c, **{key: 'mem'})
+        if k == 'seg_frac':
+            if any(v for pl in c['jit'] for row in pl for v in row):
+                yield dict(c, jit=[[[0] * c['C'] for _ in range(c['R'])] for _ in range(c['nseg'])])
+            for s_ in range(c['nseg']):
+                for r in range(c['R']):
+                    for cc in range(c['C']):
+                        if c['lev'][s_][r][cc]:
+                            lev = [[list(row) for row in pl] for pl in c['lev']]
+                            lev[s_][r][cc] = 0
+                            yield dict(c, lev=lev)
+        else:
+            for r in range(c['R']):
+                for cc in range(c['C']):
+                    if c['L'][r][cc]:
+                        L2 = [list(x) for x in c['L']]
+                        L2[r][cc] = 0
+                        yield dict(c, L=L2)
+        return
+    if k in ('seg_hist', 'seg_nums'):
         # a history: drop one read at a time (the order of the others is kept)
         if len(c['reads']) > 1:
             for i in range(len(c['reads'])):
